@@ -311,8 +311,17 @@ def design_comb(kind, name, delay, par, kw):
 
 def run_comb(case):
   kind, name, D, par, x = case["kind"], case["name"], case["delay"], case["par"], case["x"]
-  filt = design_comb(kind, name, D, par, case["kw"])
-  what = "comb.%s(%r, %r)" % (name, D, par)
+  # the default strategy of the dictionary is the user's to choose (StrategyDict feature): a named
+  # strategy is what its name says whichever strategy currently is the default
+  saved = comb.default
+  flip = (D + len(x)) % 3 == 0 and name != "default"
+  try:
+    if flip:
+      comb.default = comb.ff if kind != "ff" else comb.fb
+    filt = design_comb(kind, name, D, par, case["kw"])
+  finally:
+    comb.default = saved
+  what = "comb.%s(%r, %r)%s" % (name, D, par, " with another default strategy set" if flip else "")
   a = coeffs(filt, what)[1]
   labels = ["comb." + kind, "alias" if name != kind else "canonical name"]
   if kind == "tau":
@@ -364,6 +373,13 @@ def run_gammatone(case):
     kw["phase"] = case["phase"]
   if case["eta"] is not None:
     kw["eta"] = case["eta"]
+  if (int(freq * 1e6) + int(bw * 1e6)) % 3 == 0:
+    # the caller owns what a design function returns: changing an earlier result in place must
+    # not show in a later call with equal parameters
+    earlier = gammatone[strat](freq, bw, **kw)
+    if isinstance(earlier, list) and len(earlier):
+      earlier.append(earlier[0])
+      earlier[0] = earlier[-1] * 2
   casc = gammatone[strat](freq, bw, **kw)
   what = "gammatone.%s(%r, %r%s)" % (strat, freq, bw, "".join(", %s=%r" % p for p in sorted(kw.items())))
   if not isinstance(casc, CascadeFilter):
@@ -505,6 +521,13 @@ def run_streams(case):
       labels.append("resonator." + case["strat"])
     else:
       what = "gammatone.klapuri(%r, %r) with Stream parameters (%s)" % (fs, bs, mode)
+      if n % 2:
+        # plain sequences of parameter values (the library's own tests pass lists to klapuri)
+        plain = tuple if n % 3 == 0 else list
+        farg = plain(fs) if mode != "bw" else case["freq"]
+        barg = plain(bs) if mode != "freq" else case["bw"]
+        what = what.replace("Stream parameters", "%s parameters" % plain.__name__)
+        labels.append("plain sequence parameters")
       casc = gammatone.klapuri(farg, barg)
       cc = [gammatone.klapuri(f, b) for f, b in zip(fs, bs)]
       if not isinstance(casc, CascadeFilter) or len(casc) != len(cc[0]):
